@@ -18,22 +18,25 @@ def why(res):
 def run(ctx):
     drv = ctx.build("c27")
     # MC: all interleavings of the meta machine on small abstract programs
-    ctx.model_check("evm/MCEVMMeta", "evm/MCEVMMeta" if not ctx.thorough else "evm/MCEVMMetaThorough",
-                    timeout=ctx.pick(400, 1500), name="MCEVMMeta", coverage=ctx.thorough)
+    if ctx.thorough:
+        ctx.model_check("evm/MCEVMMeta", "evm/MCEVMMetaThorough", timeout=7200, name="MCEVMMeta", coverage=True, workers=4)
+    else:
+        ctx.model_check("evm/MCEVMMeta", "evm/MCEVMMeta", timeout=3600, name="MCEVMMeta", workers=4)
+        ctx.model_check("evm/MCEVMMeta", "evm/MCEVMMetaStatic", timeout=3600, name="MCEVMMetaStatic", workers=4)
     # R: arity boundary cases of the opcode table, enumerated by TLC, executed on the interpreter
     res = ctx.model_check("evm/MCEVMMetaCases", "evm/MCEVMMetaCasesQuick" if not ctx.thorough else "evm/MCEVMMetaCases",
-                          tags=("CASE",), timeout=600, name="MCEVMMetaCases", workers=4)
+                          tags=("CASE",), timeout=3600, name="MCEVMMetaCases", workers=4)
     cases = res.lines.get("CASE", [])
     if len(cases) < 1000:
         raise Exception("no cases emitted")
     cp = os.path.join(ctx.scratch, "cases.json")
     write_json(cp, cases)
-    ctx.drive(drv, ["-mode", "cases", "-in", cp], name="c27-cases", timeout=900)
+    ctx.drive(drv, ["-mode", "cases", "-in", cp], name="c27-cases", timeout=3600)
     # V: recorded executions validated by the trace specification
     tp = os.path.join(ctx.scratch, "trace.ndjson")
     s, _ = ctx.drive(drv, ["-mode", "record", "-trace", tp, "-n", ctx.pick(22, 500), "-maxevents", ctx.pick(220, 1200),
-                           "-deep", ctx.pick(1, 3)], name="c27-record", timeout=900)
-    ok, consumed, total, r = ctx.validate("evm/EVMMetaTrace", tp, ntraces=s["traces"], timeout=ctx.pick(900, 3000))
+                           "-deep", ctx.pick(1, 3)], name="c27-record", timeout=3600)
+    ok, consumed, total, r = ctx.validate("evm/EVMMetaTrace", tp, ntraces=s["traces"], timeout=ctx.pick(3600, 10000))
     if not ok:
         rules = why(r)
         ctx.reject_trace("evm/EVMMetaTrace", tp, consumed, r,
